@@ -461,7 +461,9 @@ def _n(x):
 
 def model_lines(cid, case, res):
     end = case['end']
-    lines = [f'case {cid} bs={case["bs"]} wait={eff_wait(case)} end={enc(end)} strict={0 if case.get("lazy") else 1}']
+    # batch_wait_time=None: the model resolves the constructor default itself (Eager.defaultWait)
+    w = f'D ups={1 << case["ulog"]}' if case['wait'] is None else str(case['wait'])
+    lines = [f'case {cid} bs={case["bs"]} wait={w} end={enc(end)} strict={0 if case.get("lazy") else 1}']
     now = 0
     n_arr = n_take = n_out = 0
     stopped = False
